@@ -63,12 +63,29 @@ impl FileStack {
     // A path named on the command line (`named`) that is not a directory is always an
     // input file; only the entries of a directory are filtered on the `.circom` extension.
     fn add_files(&mut self, paths: &[PathBuf], named: bool, reports: &mut ReportCollection) {
+        self.add_files_once(paths, named, &mut HashSet::new(), reports);
+    }
+
+    // `directories` holds the canonical paths of the directories read so far: a directory
+    // reached again (through a symbolic link to itself or to a parent) is not read twice.
+    fn add_files_once(
+        &mut self,
+        paths: &[PathBuf],
+        named: bool,
+        directories: &mut HashSet<PathBuf>,
+        reports: &mut ReportCollection,
+    ) {
         for path in paths {
             if path.is_dir() {
+                if let Ok(directory) = fs::canonicalize(path) {
+                    if !directories.insert(directory) {
+                        continue;
+                    }
+                }
                 // Handle directories on a best effort basis only.
                 if let Ok(entries) = fs::read_dir(path) {
                     let paths: Vec<_> = entries.flatten().map(|x| x.path()).collect();
-                    self.add_files(&paths, false, reports);
+                    self.add_files_once(&paths, false, directories, reports);
                 }
             } else if named || path.extension().map_or(false, |extension| extension == "circom") {
                 // Add Circom files to file stack.
